@@ -25,10 +25,16 @@ class C03(InterpProp):
             'steps or ≥2 transitions')
 
     def knobs(self, rnd, tier):
-        return gen.Knobs(p_orth=0.5, nested_targets=0.4, max_depth=5, max_states=rnd.choice([10, 18, 24]),
-                         sends=0.35, trans_per_owner=2.0)
+        kn = gen.Knobs(p_orth=0.5, nested_targets=0.4, max_depth=5, max_states=rnd.choice([10, 18, 24]),
+                       sends=0.35, trans_per_owner=2.0)
+        if getattr(self, '_real', False):
+            # (statecharts that come to an end: final states under the root)
+            kn.p_final = 0.5
+            kn.max_states = rnd.choice([5, 8, 12])
+        return kn
 
     def gen_case(self, rnd, tier):
+        self._real = rnd.random() < 0.1       # (see below: the history ends with `execute(max_steps=…)`)
         case = super().gen_case(rnd, tier)
         if rnd.random() < 0.08:
             # the documented outer-first variation (the selection hook overridden with its own flag): which
@@ -36,7 +42,30 @@ class C03(InterpProp):
             case.payload['outer_first'] = True
             case.payload['no_model'] = True
             case.model_ok = False
+        elif self._real and not any(op[0] == 'create' for op in case.payload['ops'][1:]):
+            # the history ends with `execute(max_steps=…)` itself: the steps it returns are the steps it ran
+            ops = case.payload['ops']
+            cut = rnd.randint(1, max(1, len(ops) // 3))
+            t = max([op[2] for op in ops[:cut] if op[0] == 'exec'] + [0])
+            extra = [['queue', 0, {'ev': rnd.choice(gen.EVENTS), 'data': [['v', 1], ['b', True]]}] for _ in range(rnd.randint(2, 8))]
+            case.payload['ops'] = ops[:cut] + extra + [['execute_real', 0, t, rnd.choice([1, 2, 3, 5, 10])]]
+            case.payload['no_model'] = True
+            case.model_ok = False
         return case
+
+    def check_other(self, op, ob, prev_world, gh, res):
+        if op[0] != 'execute_real' or not isinstance(ob.get('r'), dict) or ob['r'].get('err'):
+            return
+        r = ob['r']
+        ran = oracles.exec_effects(r['eff'])
+        told = [e for st in r['steps'] for e in oracles.replay_effects(st)]
+        if ran != told:
+            res.violations.append('execute(max_steps=%s): the code that ran %s is not what the returned steps say %s (%d steps returned)'
+                                  % (op[3], ran[:10], told[:10], len(r['steps'])))
+        started = len([m for m in oracles.meta_effects(r['eff']) if m['ev'] == 'step started'])
+        if op[3] > 0 and len(r['steps']) > op[3]:
+            res.violations.append('execute(max_steps=%d) returned %d steps' % (op[3], len(r['steps'])))
+        res.features.add('execute()')
 
     @staticmethod
     def stabilised_out_of_turn(sc, active, m):
@@ -125,6 +154,14 @@ class C03(InterpProp):
         # each transition micro step is followed by stabilisation steps only
         if step['steps'] and step['steps'][0]['transition'] is None and tids:
             res.violations.append('step %d: a stabilisation step precedes the first transition' % k)
+        # within one micro step the events are sent (and announced) in the order of the code that sends them
+        for m in step['steps']:
+            want = oracles.sent_in_source_order(sc, trans, m)
+            got = [('send' if e['internal'] else 'notify', e['event']['ev']) for e in m['sent']]
+            if want is not None and got != want:
+                res.violations.append('step %d: the events of one micro step are listed in the order %s, the code sends them in '
+                                      'the order %s' % (k, got, want))
+                break
         # sent events: what the 'event sent' meta-events and the notify events announced
         sent = [e for m in step['steps'] for e in m['sent']]
         metas = oracles.meta_effects(r['eff'])
